@@ -375,6 +375,129 @@ theorem exit_without_retire :
     Evt.reply .ok ∈ (step true (exec true [.nodeNo] [.svcRetired 0]).1 (.cmd .exit)).2 ∧
     Evt.reply .ok ∉ (step true (exec true [.nodeNo] []).1 (.cmd .retire)).2 := by decide
 
+/-! ## the node's service list: every configured service is hosted, whatever its attributes
+
+`App.FilterSelfServices` + `NodeCtrl.makeServices` are inside the model (`hostedOf`): the
+controller tracks exactly the configured names of the node's list, in order, and never looks
+at `ServiceInfo` (type, `Frontend`, client addresses).  The guards above therefore quantify
+over frontends (gates) exactly as over backends. -/
+
+/-- the tracked services do not depend on any attribute of the services table -/
+theorem hosted_ignores_attributes (f : SvcCfg → SvcCfg) (lst : List Entry) :
+    hostedOf (lst.map (Entry.mapCfg f)) = hostedOf lst := by
+  induction lst with
+  | nil => rfl
+  | cons e r ih => cases e <;> simp [hostedOf, Entry.mapCfg, ih]
+
+/-- as many services are tracked as names are configured (unconfigured names are skipped) -/
+theorem hosted_length (lst : List Entry) : (hostedOf lst).length = lst.countP Entry.isHosted := by
+  induction lst with
+  | nil => rfl
+  | cons e r ih => cases e <;> simp [hostedOf, Entry.isHosted, List.countP_cons, ih]
+
+/-- **every_configured_service_hosted**: the `j`-th name of the node's list, if configured — as a
+backend or as a frontend, with any attributes — is the tracked service number `hostIdx lst j`,
+and behaves like its kind. -/
+theorem every_configured_service_hosted (lst : List Entry) (j : Nat) (cfg : SvcCfg) (k : Kind)
+    (h : lst[j]? = some (.hosted cfg k)) :
+    hostIdx lst j < (hostedOf lst).length ∧ (hostedOf lst)[hostIdx lst j]? = some k := by
+  induction lst generalizing j with
+  | nil => simp at h
+  | cons e r ih =>
+    cases j with
+    | zero =>
+      simp at h; subst h
+      simp [hostIdx, hostedOf]
+    | succ j =>
+      have h' : r[j]? = some (.hosted cfg k) := by simpa using h
+      obtain ⟨h1, h2⟩ := ih j h'
+      cases e with
+      | unconfigured =>
+        simp only [hostIdx, hostedOf, List.take_succ_cons, List.countP_cons, Entry.isHosted] at h1 h2 ⊢
+        simpa using ⟨h1, h2⟩
+      | hosted c k0 =>
+        simp only [hostIdx, hostedOf, List.take_succ_cons, List.countP_cons, Entry.isHosted] at h1 h2 ⊢
+        simp only [if_true, List.length_cons, List.getElem?_cons_succ]
+        exact ⟨by omega, h2⟩
+
+/-- an unconfigured name is not tracked: the tracked services are the configured ones only -/
+theorem unconfigured_not_hosted (lst : List Entry) : hostedOf (lst.filter Entry.isHosted) = hostedOf lst := by
+  induction lst with
+  | nil => rfl
+  | cons e r ih => cases e <;> simp [hostedOf, Entry.isHosted, List.filter_cons, ih]
+
+/-- **probe_asks_every_hosted**: the start-up probe asks every configured service the node can
+resolve — a frontend as well — for its retirement support. -/
+theorem probe_asks_every_hosted (lst : List Entry) (mode : StopMode) (j : Nat) (cfg : SvcCfg) (k : Kind)
+    (h : lst[j]? = some (.hosted cfg k)) (hr : k.reachable = true) :
+    Evt.send (hostIdx lst j) .queryretire ∈ (execCfg true lst [] mode).2 := by
+  obtain ⟨h1, h2⟩ := every_configured_service_hosted lst j cfg k h
+  simp only [execCfg, exec, List.mem_append]
+  left
+  simp only [tellAll, List.mem_map, List.mem_filter, List.mem_range, start]
+  refine ⟨hostIdx lst j, ⟨h1, ?_⟩, rfl⟩
+  simp [List.contains_eq_mem, List.mem_filter, reachableAt, h2, hr]
+
+/-- **retire_guard_cfg**: `retire_guard` over the node's configuration: an accepted retire means
+every configured name of the list — frontend or backend — answered the probe with "ok", and
+each one the node can resolve is told to retire. -/
+theorem retire_guard_cfg (lst : List Entry) (ops : List Op) (mode : StopMode) (c : Cmd)
+    (hc : c = .retire ∨ c = .webRetire)
+    (hok : Evt.reply .ok ∈ (step true (execCfg true lst ops mode).1 (.cmd c)).2)
+    (j : Nat) (cfg : SvcCfg) (k : Kind) (h : lst[j]? = some (.hosted cfg k)) :
+    Op.qack (hostIdx lst j) true ∈ history (hostedOf lst) ops ∧
+    (hostIdx lst j ∉ (execCfg true lst ops mode).1.unres →
+      Evt.send (hostIdx lst j) .retire ∈ (step true (execCfg true lst ops mode).1 (.cmd c)).2) := by
+  obtain ⟨h1, _⟩ := every_configured_service_hosted lst j cfg k h
+  have g := retire_guard (hostedOf lst) ops mode c hc hok
+  exact ⟨g.2.1 _ h1, g.2.2.1 _ h1⟩
+
+/-- **retired_waits_for_every_configured**: the node publishes `retired` only after every
+configured name of its list — frontend or backend — has reported retired. -/
+theorem retired_waits_for_every_configured (lst : List Entry) (ops : List Op) (mode : StopMode) (o : Op)
+    (hp : Evt.pub .retired ∈ (step true (execCfg true lst ops mode).1 o).2)
+    (j : Nat) (cfg : SvcCfg) (k : Kind) (h : lst[j]? = some (.hosted cfg k)) :
+    Op.svcRetired (hostIdx lst j) ∈ ops ++ [o] :=
+  retired_only_after_all_reported (hostedOf lst) ops mode o hp _ (every_configured_service_hosted lst j cfg k h).1
+
+/-- **exit_waits_for_every_configured**: an accepted exit means every configured name reported retired -/
+theorem exit_waits_for_every_configured (lst : List Entry) (ops : List Op) (mode : StopMode) (c : Cmd)
+    (hc : c = .exit ∨ c = .webExit)
+    (hok : Evt.reply .ok ∈ (step true (execCfg true lst ops mode).1 (.cmd c)).2)
+    (j : Nat) (cfg : SvcCfg) (k : Kind) (h : lst[j]? = some (.hosted cfg k)) :
+    Op.svcRetired (hostIdx lst j) ∈ ops :=
+  (exit_guard (hostedOf lst) ops mode c hc hok).2.1 _ (every_configured_service_hosted lst j cfg k h).1
+
+/-- non-vacuity: a gate listed between an unconfigured name and a backend is service 0; retire is
+refused until it, too, has answered "ok", and accepted then -/
+example :
+    let lst := [Entry.unconfigured, .hosted { typ := 1, frontend := true, clientAddr := true } .raw, .hosted {} .raw]
+    hostIdx lst 1 = 0 ∧ hostIdx lst 2 = 1 ∧
+    Evt.reply .ok ∉ (step true (execCfg true lst [.qack 1 true]).1 (.cmd .retire)).2 ∧
+    Evt.reply .ok ∈ (step true (execCfg true lst [.qack 1 true, .qack 0 true]).1 (.cmd .retire)).2 ∧
+    Evt.pub .retired ∉ (step true (execCfg true lst [.qack 1 true, .qack 0 true, .cmd .retire]).1 (.svcRetired 1)).2 ∧
+    Evt.pub .retired ∈ (step true (execCfg true lst [.qack 1 true, .qack 0 true, .cmd .retire, .svcRetired 1]).1
+      (.svcRetired 0)).2 := by decide
+
+open Cell2v.Spec.C12 in
+/-- the monitor is not vacuous on the start-up clause: a controller that leaves a hosted gate
+out of its probe (service 0 of two is never asked) is flagged on the very first observation -/
+theorem monitor_flags_unprobed_service :
+    (Mon.reset (hostedOf [.hosted { frontend := true } .raw, .hosted {} .raw])
+      { reply := none, pubs := [], upd := [], stops := 0, sent := [(1, .queryretire)], st := .working }).2
+      = some "C12/hosted-service-not-probed" := by decide
+
+open Cell2v.Spec.C12 in
+/-- ... and on the retire clause from a real start (`Mon.reset`, then `runAll`): a retire accepted
+while the gate never declared support is flagged -/
+theorem monitor_flags_retire_without_frontend_support :
+    monitorCase (hostedOf [.hosted { frontend := true } .raw, .hosted {} .raw]) none
+      { reply := none, pubs := [], upd := [], stops := 0, sent := [(0, .queryretire), (1, .queryretire)], st := .working }
+      [(.qack 1 true, { reply := none, pubs := [], upd := [], stops := 0, sent := [], st := .working }),
+       (.cmd .retire, { reply := some .ok, pubs := [.retiring], upd := [.retiring], stops := 0,
+                        sent := [(0, .retire), (1, .retire)], st := .retiring })]
+      = some "C12/retire-accepted-without-support" := by decide
+
 /-! ## non-vacuity: the hypotheses above are met by real histories -/
 
 /-- one scripted and one NodeService-kind service, both supporting: retire is accepted -/
